@@ -197,7 +197,10 @@ class Driver:
     one build do not see each other's snoopy.ini."""
     _n = 0
 
-    def __init__(self, run, build, timeout_ms=20000, extra_preload=(), extra_env=None, san_opts="", binds=(), utmp=None, secure=False):
+    def __init__(self, run, build, timeout_ms=20000, extra_preload=(), extra_env=None, san_opts="", binds=(), utmp=None, secure=False, loginuid=None):
+        # loginuid: the audit login uid of the session the driver belongs to (what pam_loginuid sets for cron / sshd sessions; inherited by
+        # every descendant, read by the C library's getlogin_r() before it looks at the terminal)
+        self.loginuid = loginuid
         # secure: the driver itself is a set-uid-root program started by another user (AT_SECURE: the loader ignores LD_PRELOAD, the C
         # library's secure_getenv() returns nothing); the libraries come in through an /etc/ld.so.preload of the driver's own namespace
         self.secure = secure
@@ -257,6 +260,12 @@ class Driver:
         os.set_inheritable(r_r, False)
 
         def pre():
+            if getattr(self, "loginuid", None) is not None:
+                try:
+                    with open("/proc/self/loginuid", "w") as f:
+                        f.write(str(self.loginuid))
+                except OSError:
+                    pass
             os.dup2(c_r, 3)
             os.dup2(r_w, 4)
             os.close(c_r)
